@@ -166,6 +166,14 @@ theorem top_names : ∀ (s : Js) (cnd : Bool) (n n' : Names) (ks : List String),
     obtain ⟨rfl, _⟩ := hl
     have := body_names body _ ps n1 k1 h hl1; subst this
     rw [shadow_pop]; exact ⟨hin, fun _ _ h => h⟩
+  | loop i k m body _ =>
+    intro cnd n n' ks h hin hl
+    simp only [topOk, Bool.and_eq_true] at h
+    simp only [listen] at hl
+    rw [hl] at h
+    have : n' = n := by simpa using h.2
+    subst this
+    exact ⟨hin, fun _ _ h => h⟩
   | num m => intro cnd n n' ks h hin hl; simp only [topOk, pureTop] at h; have := pure_names_top h hl; subst this; exact ⟨hin, fun _ _ h => h⟩
   | str m => intro cnd n n' ks h hin hl; simp only [topOk, pureTop] at h; have := pure_names_top h hl; subst this; exact ⟨hin, fun _ _ h => h⟩
   | ident m => intro cnd n n' ks h hin hl; simp only [topOk, pureTop] at h; have := pure_names_top h hl; subst this; exact ⟨hin, fun _ _ h => h⟩
@@ -369,6 +377,38 @@ theorem top_step (D : List String) (fuel : Nat) (ih : TopP D fuel) : TopP D (fue
     intro w hw
     simp only [Option.some.injEq] at hw; subst hw
     exact ⟨by simp, rfl, _, k1, hl1, h, hD⟩
+  | loop i k m body =>
+    simp only [topOk, Bool.and_eq_true] at h
+    have hl0 := hl
+    simp only [listen] at hl
+    have hsame : n' = n := by
+      have h2 := h.2; rw [hl] at h2; simpa using h2
+    subst hsame
+    simp only [eval, List.headD] at he
+    have hupd : ∀ (v : Nat), EnvOk n' [] true D [1, 0] (declareVar st.heap 1 i (some (.num v))) :=
+      fun v => henv.upd (upd_declare (henv.len_ok rfl) (by intro w hw; simp only [Option.some.injEq] at hw; subst hw; simp [CloOk]))
+    split at he
+    · simp only [Option.some.injEq, Prod.mk.injEq] at he
+      obtain ⟨rfl, rfl⟩ := he
+      exact ⟨fun k hk => Or.inl hk, fun _ _ => hupd m⟩
+    · cases h1 : eval fuel [1, 0] body { st with heap := declareVar st.heap 1 i (some (.num k)) } with
+      | none => rw [h1] at he; simp at he
+      | some p =>
+        obtain ⟨rb, st1⟩ := p
+        rw [h1] at he
+        obtain ⟨hrd1, henv1⟩ := ih body true n' _ rb st1 n' ks h.1 hin (hupd k) h1 hl hD
+        cases rb with
+        | returned v =>
+          simp only [Option.some.injEq, Prod.mk.injEq] at he
+          obtain ⟨rfl, rfl⟩ := he
+          exact ⟨hrd1, fun v hv => by simp at hv⟩
+        | normal v =>
+          simp only at he
+          have htop : topOk cnd n' (.loop i (k + 1) m body) = true := by
+            simp only [topOk, Bool.and_eq_true]; exact h
+          obtain ⟨hrd2, henv2⟩ := ih (.loop i (k + 1) m body) cnd n' st1 r st' n' ks htop hin (henv1 v rfl) he
+            (by simp only [listen]; exact hl) hD
+          exact ⟨reads_trans hrd1 hrd2, henv2⟩
   | num m => simp only [topOk] at h; exact top_of_pure h henv he hl hD
   | str m => simp only [topOk] at h; exact top_of_pure h henv he hl hD
   | ident m => simp only [topOk] at h; exact top_of_pure h henv he hl hD
